@@ -21,6 +21,10 @@ enum Op {
     /// one refill (`request_more`), enabled while fewer than m bytes are buffered: a look-ahead
     /// `request_byte_at_offset(k)` with k < m is a sequence of these
     More,
+    /// `request(m)` / `request_byte_at_offset(m - 1)`: the refill loops of the look-ahead entry
+    /// points themselves (every schedule of read sizes with at most two departures from full chunks)
+    Request(usize),
+    ByteAt(usize),
     Advance(usize),
     SetChunk(usize),
 }
@@ -35,6 +39,12 @@ fn apply(r: &mut DeferredReader, op: &Op) {
     match op {
         Op::More => {
             r.request_more();
+        }
+        Op::Request(n) => {
+            r.request(*n);
+        }
+        Op::ByteAt(k) => {
+            r.request_byte_at_offset(*k);
         }
         Op::Advance(n) => r.advance(*n),
         Op::SetChunk(c) => r.set_chunk_size(*c),
@@ -83,6 +93,10 @@ fn expand(cfg: &Cfg, data: &[u8], hist: &Vec<Step>, report: &mut Report) -> Vec<
     let mut ops: Vec<Op> = Vec::new();
     if bl < cfg.m {
         ops.push(Op::More);
+        if cfg.m > 1 {
+            ops.push(Op::Request(cfg.m));
+            ops.push(Op::ByteAt(cfg.m - 1));
+        }
     }
     for n in 1..=cfg.m.min(bl) {
         ops.push(Op::Advance(n));
@@ -97,7 +111,7 @@ fn expand(cfg: &Cfg, data: &[u8], hist: &Vec<Step>, report: &mut Report) -> Vec<
     let mut succ = Vec::new();
     for op in ops {
         let r = explore(
-            None,
+            if matches!(op, Op::Request(_) | Op::ByteAt(_)) { Some(2) } else { None },
             |prefix| {
                 let (mut r, st) = replay(cfg, data, hist, &prefix);
                 apply(&mut r, &op);
@@ -146,6 +160,8 @@ fn long_runs(cfg: &Cfg, data: &[u8], report: &mut Report) {
     let mut alpha: Vec<Op> = vec![Op::More, Op::Advance(1)];
     if cfg.m > 1 {
         alpha.push(Op::Advance(cfg.m));
+        alpha.push(Op::Request(cfg.m));
+        alpha.push(Op::ByteAt(cfg.m - 1));
     }
     if cfg.m > 2 {
         alpha.push(Op::Advance((cfg.m + 1) / 2));
@@ -176,7 +192,7 @@ fn long_runs(cfg: &Cfg, data: &[u8], report: &mut Report) {
                     let op = &alpha[i];
                     let bl = r.buf_len();
                     let enabled = match op {
-                        Op::More => bl < cfg.m,
+                        Op::More | Op::Request(_) | Op::ByteAt(_) => bl < cfg.m,
                         Op::Advance(k) => *k <= bl,
                         Op::SetChunk(_) => true,
                     };
